@@ -78,8 +78,14 @@ enum Filt {
     ListenerL1,
     Port80,
     HostIsOne, // to_integer(request.target.host) == 1 : evaluation error unless the host is numeric
+    /// true by its left operand alone for listener l1 - the failing right operand must not be looked at then
+    L1OrHostIsOne,
+    /// false by its left operand alone unless the listener is l1: `!(false && <failing>)` is true
+    NotL1AndHostIsFive,
 }
-const FILTS: [Filt; 4] = [Filt::Absent, Filt::ListenerL1, Filt::Port80, Filt::HostIsOne];
+const FILTS: [Filt; 6] = [Filt::Absent, Filt::ListenerL1, Filt::Port80, Filt::HostIsOne, Filt::L1OrHostIsOne, Filt::NotL1AndHostIsFive];
+/// the filters every list length is built from; the short-circuit filters join lists up to length 3
+const BASE_FILTS: usize = 4;
 const TARGETS: [&str; 3] = ["A", "B", "deny"];
 
 fn filt_text(f: Filt) -> Option<&'static str> {
@@ -88,6 +94,8 @@ fn filt_text(f: Filt) -> Option<&'static str> {
         Filt::ListenerL1 => Some("request.listener == \"l1\""),
         Filt::Port80 => Some("request.target.port == 80"),
         Filt::HostIsOne => Some("to_integer(request.target.host) == 1"),
+        Filt::L1OrHostIsOne => Some("request.listener == \"l1\" || to_integer(request.target.host) == 1"),
+        Filt::NotL1AndHostIsFive => Some("!(request.listener == \"l1\" && to_integer(request.target.host) == 5)"),
     }
 }
 
@@ -98,6 +106,8 @@ fn filt_matches(f: Filt, r: &Req) -> bool {
         Filt::Port80 => r.target.port() == 80,
         // an evaluation error (non numeric host) counts as not matching
         Filt::HostIsOne => r.target.host().parse::<i64>().map(|v| v == 1).unwrap_or(false),
+        Filt::L1OrHostIsOne => r.listener == "l1" || r.target.host().parse::<i64>().map(|v| v == 1).unwrap_or(false),
+        Filt::NotL1AndHostIsFive => r.listener != "l1" || r.target.host().parse::<i64>().map(|v| v != 5).unwrap_or(false),
     }
 }
 
@@ -144,10 +154,15 @@ fn requests(all: bool) -> Vec<Req> {
 }
 
 fn lists(maxlen: usize) -> Vec<Vec<(Filt, &'static str)>> {
-    let shapes: Vec<(Filt, &'static str)> = FILTS.iter().flat_map(|f| TARGETS.iter().map(move |t| (*f, *t))).collect();
     let mut all: Vec<Vec<(Filt, &'static str)>> = vec![vec![]];
     let mut cur: Vec<Vec<(Filt, &'static str)>> = vec![vec![]];
-    for _ in 0..maxlen {
+    for len in 1..=maxlen {
+        let filts = if len <= 3 { &FILTS[..] } else { &FILTS[..BASE_FILTS] };
+        let shapes: Vec<(Filt, &'static str)> = filts.iter().flat_map(|f| TARGETS.iter().map(move |t| (*f, *t))).collect();
+        if len == 4 {
+            // length 4 over the base filters only
+            cur.retain(|l| l.iter().all(|(f, _)| FILTS[..BASE_FILTS].contains(f)));
+        }
         let mut next = vec![];
         for l in &cur {
             for s in &shapes {
@@ -395,7 +410,7 @@ fn check() {
         "exhaustive": true,
         "states": outcomes.len(), "transitions": n, "traces_validated_against_impl": n,
         "evaluations": n + attr_cases + cidr_cases, "distinct_nontrivial": nt,
-        "rule": "all rule lists of length 0..3 (thorough: + all of length 4) over 12 shapes (4 filters incl. one that fails to evaluate x targets A,B,deny) x request grid (quick 12 representatives, thorough 96: listener x source family x target kind x port x feature) x 2 upstream feature sets, each through the real set_rules + process_request with recorder connectors, on a fresh state and on a state that carried the same filters with rotated targets / the reversed list before. non-trivial = more than one rule matches or removing the first rule changes the decision (counted per run). states = distinct (connect calls, callbacks, recorded connector) observations",
+        "rule": "all rule lists of length 0..3 (thorough: + all of length 4) over 18 shapes (6 filters incl. one that fails to evaluate and two that are decided by their left operand while the right one fails x targets A,B,deny; length 4 over the 12 base shapes) x request grid (quick 12 representatives, thorough 96: listener x source family x target kind x port x feature) x 2 upstream feature sets, each through the real set_rules + process_request with recorder connectors, on a fresh state and on a state that carried the same filters with rotated targets / the reversed list before. non-trivial = more than one rule matches or removing the first rule changes the decision (counted per run). states = distinct (connect calls, callbacks, recorded connector) observations",
         "process_request_runs": n, "attribute_cases": attr_cases, "cidr_cases": cidr_cases,
         "samples": [
             {"rules": [{"filter": "to_integer(request.target.host) == 1", "target": "A"}, {"filter": "request.listener == \"l1\"", "target": "deny"}, {"target": "B"}], "request": "l1 127.0.0.1 -> a.b:80 UdpForward", "expected": "refused"},
